@@ -23,6 +23,10 @@ type Target struct {
 	// Shared returns the long-lived objects the receiver was built from (keys): they must stay intact.
 	Shared func(e *Env) []interface{}
 	Rows   []Row
+	// NoScratch: the receiver has no scratch memory (residue fills are then no-ops).
+	NoScratch bool
+	// DefaultNotTabled: reason applying to every exported method that has neither a row nor a NotTabled entry.
+	DefaultNotTabled string
 	// NotTabled: exported methods deliberately without a row, with the reason (accessors returning
 	// internal state, copy constructors = C10's subject, methods promoted from an embedded type that
 	// has its own target).
@@ -47,6 +51,11 @@ type Row struct {
 	InPlace []int
 	// NoAlias: the doc comment forbids passing an input as output (reason). Such calls are not generated.
 	NoAlias string
+	// OutMayBeLargerInput: the doc comment allows the output polynomial to have more rows than the result
+	// (so an input polynomial of the input's size may be passed as output).
+	OutMayBeLargerInput bool
+	// Func: the row is a package-level function or a method of another type grouped under this target.
+	Func bool
 	// Doc is the relevant sentence of the method's doc comment the classification was read from.
 	Doc string
 }
@@ -54,6 +63,9 @@ type Row struct {
 // Kind is one operand-kind variant of a row.
 type Kind struct {
 	Name  string
+	// Class is the coarse operand kind used in violation signatures (several Kinds that differ only in
+	// the shape of op0 share a Class); empty: Name.
+	Class string
 	Names []string // argument names, for messages
 	// Make returns fresh inputs; the content must be a pure function of (e, g).
 	Make func(e *Env, g *Gen) []interface{}
@@ -63,15 +75,26 @@ type Kind struct {
 type Shape int
 
 const (
-	ShapeExact        Shape = iota // freshly allocated, exactly the shape of the result, zeroed
-	ShapeLargerDegree              // one more polynomial than the result, previously used (garbage)
-	ShapeLargerLevel               // one more level than the result (when the chain allows it), garbage
-	ShapeGarbage                   // exact shape, but holding another result: garbage words, other scale / dimensions
-	ShapeSmallerLevel              // one level less than the inputs, garbage (the reference is then a fresh output of that smaller level)
+	ShapeExact        Shape = iota // freshly allocated, exactly the shape of the result, zeroed, default metadata
+	ShapeDirtyWords                // exact shape, default metadata, but every word holds an old value
+	ShapeDirtyMeta                 // exact shape, zeroed, but the metadata of another result (other scale / dimensions / batching flag)
+	ShapeLargerDegree              // one more polynomial than the result, old values in every word
+	ShapeLargerLevel               // one more level than the result (when the chain allows it), old values
+	ShapeSmallerLevel              // one level less than the result would have, old values (the reference is then a fresh output of that smaller level)
 )
 
 func (s Shape) String() string {
-	return [...]string{"exact", "larger-degree", "larger-level", "garbage", "smaller-level"}[s]
+	return [...]string{"exact", "dirty-words", "dirty-meta", "larger-degree", "larger-level", "smaller-level"}[s]
+}
+
+// Weaker returns the output histories that are strictly "contained" in s (used to attribute a failure
+// to the smallest deviation that reproduces it).
+func (s Shape) Weaker() []Shape {
+	switch s {
+	case ShapeLargerDegree, ShapeLargerLevel, ShapeSmallerLevel:
+		return []Shape{ShapeDirtyWords}
+	}
+	return nil
 }
 
 // OutSpec describes the designated output parameter of a row.
@@ -94,22 +117,26 @@ func (o *OutSpec) MakeOut(e *Env, in []interface{}, sh Shape) interface{} {
 	switch sh {
 	case ShapeExact:
 		return o.New(e, in, 0, 0)
+	case ShapeDirtyWords, ShapeDirtyMeta:
+		out = o.New(e, in, 0, 0)
 	case ShapeLargerDegree:
 		out = o.New(e, in, 1, 0)
 	case ShapeLargerLevel:
 		out = o.New(e, in, 0, 1)
-	case ShapeGarbage:
-		out = o.New(e, in, 0, 0)
 	case ShapeSmallerLevel:
 		out = o.New(e, in, 0, -1)
 	}
 	if out == nil || reflect.ValueOf(out).Kind() == reflect.Ptr && reflect.ValueOf(out).IsNil() {
 		return nil
 	}
-	FillObject(out, FillPattern)
-	if sh == ShapeGarbage || sh == ShapeSmallerLevel {
-		e.DirtyMeta(metaOf(out))
+	if sh == ShapeDirtyMeta {
+		if m := metaOf(out); m != nil {
+			e.DirtyMeta(m)
+			return out
+		}
+		return nil // no metadata: the shape does not exist
 	}
+	FillObject(out, FillPattern)
 	return out
 }
 
@@ -138,6 +165,20 @@ type Pattern struct {
 	Same  *[2]int
 }
 
+// fits: a polynomial value a can stand for b only if it has the same number of rows (a Q-basis
+// polynomial is not a P-basis polynomial), or more rows where the row's doc allows it.
+func fits(a, b interface{}, larger bool) bool {
+	switch x := a.(type) {
+	case ring.Poly:
+		y, ok := b.(ring.Poly)
+		return ok && (len(x.Coeffs) == len(y.Coeffs) || larger && len(x.Coeffs) > len(y.Coeffs))
+	case ringqp.Poly:
+		y, ok := b.(ringqp.Poly)
+		return ok && len(x.Q.Coeffs) == len(y.Q.Coeffs) && len(x.P.Coeffs) == len(y.P.Coeffs)
+	}
+	return true
+}
+
 func aliasable(v interface{}) bool {
 	if v == nil {
 		return false
@@ -162,9 +203,9 @@ func Patterns(r *Row, in []interface{}, out interface{}, names []string) []Patte
 		return "arg" + string(rune('0'+i))
 	}
 	var outIdx []int
-	if out != nil && r.NoAlias == "" && !(r.Out != nil && r.Out.Accumulates && false) {
+	if out != nil && r.NoAlias == "" {
 		for i, a := range in {
-			if aliasable(a) && reflect.TypeOf(a) == reflect.TypeOf(out) {
+			if aliasable(a) && !contains(r.InPlace, i) && reflect.TypeOf(a) == reflect.TypeOf(out) && fits(a, out, r.OutMayBeLargerInput) {
 				ps = append(ps, Pattern{Name: "out==" + name(i), OutIs: i})
 				outIdx = append(outIdx, i)
 			}
@@ -172,7 +213,7 @@ func Patterns(r *Row, in []interface{}, out interface{}, names []string) []Patte
 	}
 	for i := range in {
 		for j := i + 1; j < len(in); j++ {
-			if aliasable(in[i]) && reflect.TypeOf(in[i]) == reflect.TypeOf(in[j]) {
+			if aliasable(in[i]) && !contains(r.InPlace, i) && !contains(r.InPlace, j) && reflect.TypeOf(in[i]) == reflect.TypeOf(in[j]) && fits(in[i], in[j], false) {
 				p := [2]int{i, j}
 				ps = append(ps, Pattern{Name: name(i) + "==" + name(j), OutIs: -1, Same: &p})
 				if contains(outIdx, i) && contains(outIdx, j) {
@@ -197,67 +238,108 @@ func contains(s []int, x int) bool {
 // ---------------------------------------------------------------------------------------------
 // canonical form of a result
 
-// Canon returns the bytes of the meaningful part of a result. Ciphertext-like results are compared as
-// what they denote: metadata, level, and the polynomials Value[0..degree] at levels 0..level, where
+// Part is one separately compared component of a result.
+type Part struct {
+	Name string
+	B    []byte
+}
+
+// Parts returns the meaningful part of a result, split into separately compared components so that
+// one defect (say, a scale that is not propagated) does not hide another (wrong residues).
+// Ciphertext-like results are compared as what they denote: "meta:Scale", "meta" (all other metadata),
+// "level" and "value" (the polynomials Value[0..degree] at levels 0..level), where
 // trailing all-zero polynomials are dropped (c0+c1·s and c0+c1·s+0·s² are the same result; what lies
 // beyond the result's degree / level in the backing arrays is not part of it). Everything else is
-// compared by its full value snapshot.
-func Canon(res interface{}) []byte {
+// compared by its full value snapshot ("value").
+func Parts(res interface{}) []Part {
 	switch r := res.(type) {
 	case nil:
-		return []byte{0}
+		return []Part{{"value", []byte{0}}}
 	case *rlwe.Ciphertext:
 		if r == nil {
-			return []byte{0}
+			return []Part{{"value", []byte{0}}}
 		}
-		return canonEl(&r.Element)
+		return partsEl(&r.Element)
 	case *rlwe.Element[ring.Poly]:
 		if r == nil {
-			return []byte{0}
+			return []Part{{"value", []byte{0}}}
 		}
-		return canonEl(r)
+		return partsEl(r)
 	case []*rlwe.Ciphertext:
-		var b []byte
+		var all [][]Part
 		for _, c := range r {
-			b = append(b, Canon(c)...)
-			b = append(b, 0xEE)
+			all = append(all, Parts(c))
 		}
-		return b
+		return mergeParts(all, nil)
 	case map[int]*rlwe.Ciphertext:
 		keys := make([]int, 0, len(r))
 		for k := range r {
 			keys = append(keys, k)
 		}
 		sort.Ints(keys)
-		var b []byte
+		var all [][]Part
 		for _, k := range keys {
-			b = append(b, byte(k), byte(k>>8))
-			b = append(b, Canon(r[k])...)
-			b = append(b, 0xEE)
+			all = append(all, Parts(r[k]))
 		}
-		return b
+		return mergeParts(all, keys)
 	case []interface{}:
-		var b []byte
+		var all [][]Part
 		for _, c := range r {
-			b = append(b, Canon(c)...)
-			b = append(b, 0xEF)
+			all = append(all, Parts(c))
 		}
-		return b
+		return mergeParts(all, nil)
 	}
-	return Bytes(false, res)
+	return []Part{{"value", Bytes(false, res)}}
 }
 
-func canonEl(el *rlwe.Element[ring.Poly]) []byte {
-	b := Bytes(false, el.MetaData)
+func mergeParts(all [][]Part, keys []int) []Part {
+	idx := map[string]int{}
+	var out []Part
+	for i, ps := range all {
+		for _, p := range ps {
+			j, ok := idx[p.Name]
+			if !ok {
+				j = len(out)
+				idx[p.Name] = j
+				out = append(out, Part{Name: p.Name})
+			}
+			k := i
+			if keys != nil {
+				k = keys[i]
+			}
+			out[j].B = append(out[j].B, byte(k), byte(k>>8), 0xEE)
+			out[j].B = append(out[j].B, p.B...)
+		}
+	}
+	if len(out) == 0 {
+		out = []Part{{"value", []byte{0xE0}}}
+	}
+	return out
+}
+
+func partsEl(el *rlwe.Element[ring.Poly]) []Part {
+	var scale, meta []byte
+	if el.MetaData == nil {
+		meta = []byte{0}
+	} else {
+		// numeric value of the scale (exact, independent of the big.Float precision it was computed with)
+		scale = []byte(el.MetaData.Scale.Value.Text('p', 0))
+		if el.MetaData.Scale.Mod != nil {
+			scale = append(scale, ("%" + el.MetaData.Scale.Mod.String())...)
+		}
+		m := *el.MetaData
+		m.Scale = rlwe.Scale{}
+		meta = Bytes(false, m)
+	}
 	d := len(el.Value) - 1
 	for d > 0 && isZero(el.Value[d]) {
 		d--
 	}
-	b = append(b, byte(d), byte(el.Level()))
+	var val []byte
 	for i := 0; i <= d; i++ {
-		b = append(b, Bytes(false, el.Value[i].Coeffs)...)
+		val = append(val, Bytes(false, el.Value[i].Coeffs)...)
 	}
-	return b
+	return []Part{{"meta:Scale", scale}, {"meta", meta}, {"level", []byte{byte(el.Level())}}, {"value", val}}
 }
 
 func isZero(p ring.Poly) bool {
